@@ -1,17 +1,28 @@
 (* Audit D, reviewer B: witnesses against the statements repaired after audit C
    (Properties/C04.v C11.v C13.v C15.v, proofs in Proofs/AuditRepairFacts.v).
-   Every statement is closed by computation or a short proof; nothing is added to the model. *)
+   Every statement is closed by computation or a short proof; nothing is added to the model.
+
+   AFTER THE REPAIRS (AUDIT_D.md, section REPAIRS): the witnesses D1 and D2 below state the body of
+   C04_sim_kill_justified AS IT WAS when audit D ran (they are self-contained statements and still hold of that OLD
+   body). The body now also carries NoDup (map c_id act4), k <= length (victims_order C act1),
+   map c_id vs = firstn k (victims_order C act1), act5 = map (kill_if (map c_id vs)) act1, the [ids_killed]
+   equivalence and incl res (tl_results lg); against the NEW body both fabrications fail: modules [VsForced] and
+   [NextForced] below prove the negations on the same ticks, with the containers / run of this file. D3 (C15): the
+   theorem was renamed C15_gen_run_u_domain and restated as a domain restriction; the three witnesses are now the
+   documented limitation in the header of the choice_float part of Properties/C15.v. *)
 From Coq Require Import List Arith ZArith QArith Qabs Bool Lia Lqa Sorted.
 Import ListNotations.
 From Eudoxia Require Import Num.Rnd64 Model.Types Model.Dag Model.Lifecycle Model.Timing Model.Container
   Model.Pool Model.Executor Model.Sched Model.Simulator
   Proofs.OomFacts Proofs.LedgerFacts Proofs.MemoryFacts Proofs.PriorityPoolRunFacts Proofs.SimReachFacts
-  Proofs.SimCorollaryFacts Proofs.SimTimelineFacts Proofs.AuditRepairFacts Proofs.AuditExamplesC.
+  Proofs.SimCorollaryFacts Proofs.SimTimelineFacts Proofs.AuditRepairFacts Proofs.AuditRepairFacts2
+  Proofs.AuditExamplesC.
 Close Scope Q_scope.
 Close Scope Z_scope.
 
 (* ====================================================================================================== *)
-(* D1. C04_sim_kill_justified (repaired): [vs] - "the victims of the pool-level loop in kill order" in the   *)
+(* D1. C04_sim_kill_justified (as repaired after audit C; OLD body, see [VsForced] for the new one): [vs] -  *)
+(*     "the victims of the pool-level loop in kill order" in the                                             *)
 (*     text - is still an unlinked existential. Only three conjuncts mention it (vs <> [] -> ..., the Forall,  *)
 (*     nth_error vs j = Some c); none ties it to [act5]. Tick 0 of the file's own witness run (overbook,       *)
 (*     overcommit; containers 0 and 1 at 6 GB of 10 GB; container 0 is the ONLY pool-level victim, container  *)
@@ -81,8 +92,38 @@ Qed.
 
 End VsFree.
 
+(* D1, NEGATION (after the audit-D repair). The conjuncts the body has now force the victims on that tick: whatever
+   pool, counter and lists it is satisfied with, the counter is 0, one victim is taken, [vs] is exactly [c0r] - the
+   list [c0r; c1r] of the witness above is refused, the survivor [c1r] is not a victim *)
+Module VsForced.
+Import SimCorExamples AuditExamplesC.C04 VsFree.
+
+Example kill_justified_body_forces_the_real_victims :
+  forall i p p' next act2 act4 act1 act5 vs k,
+    nth_error (e_pools (sm_exec k0)) i = Some p -> nth_error (e_pools (sm_exec k1)) i = Some p' ->
+    act2 = filter (fun c => negb (memb (c_id c) (map su_cid
+                     (filter (fun x => (su_pool x =? Z.of_nat (p_id p))%Z) (tl_susp klg0))))) (p_active p)
+           ++ new_containers next (filter (fun x => (a_pool x =? Z.of_nat (p_id p))%Z) (tl_asgs klg0)) ->
+    act4 = map (cstep Ck) act2 ->
+    act1 = map (kill_when over_limit) act4 ->
+    k <= length (victims_order Ck act1) ->
+    map c_id vs = firstn k (victims_order Ck act1) ->
+    act5 = map (kill_if (map c_id vs)) act1 ->
+    p_active p' = filter (fun c => negb (c_completed c)) act5 ->
+    Forall (fun v => In v act4 /\ c_completed v = false /\ (c_mem v <= c_ram v)%Q /\ (0 < c_mem v)%Q) vs ->
+    next = 0 /\ k = 1 /\ act4 = act4r /\ vs = [c0r] /\ vs <> [c0r; c1r] /\ ~ In c1r vs /\ In c1r (p_active p').
+Proof.
+  intros i p p' next act2 act4 act1 act5 vs k H1 H2 H3 H4 H5 H6 H7 H8 H9 H10.
+  destruct (VictimsForced.kill_justified_forces_victims i p p' next act2 act4 act1 act5 vs k
+              H1 H2 H3 H4 H5 H6 H7 H8 H9 H10) as (A & B & D & E & F & G).
+  split; [exact A|]. split; [exact B|]. split; [exact D|]. split; [exact E|].
+  split; [rewrite E; discriminate|]. split; [exact F|exact G].
+Qed.
+
+End VsForced.
+
 (* ====================================================================================================== *)
-(* D2. C04_sim_kill_justified (repaired): [next] is bound by [e_next <= next] only, [next'] and [res] are     *)
+(* D2. C04_sim_kill_justified (OLD body, see [NextForced]): [next] is bound by [e_next <= next] only, [next'] and [res] are *)
 (*     free ([In r res] is the only link of [res] to the log; C11_sim_kills has [incl res (tl_results lg)]).   *)
 (*     When every container created by the pool in the tick also leaves in the tick, nothing pins the ids of  *)
 (*     the new containers. Run: overbook, one pool 10 CPU / 10 GB; operator 1 (6 GB, then 11 GB) arrives in    *)
@@ -208,8 +249,33 @@ Qed.
 
 End NextFree.
 
+(* D2, NEGATION (after the audit-D repair). With [incl res (tl_results lg)] and the victim link the counter is the
+   counter of the state on that tick: next = 1, the containers that enter the killer are 0 and 1, the results of the
+   pool are the results of the log; next = 7 is refused *)
+Module NextForced.
+Import SimCorExamples NextFree.
+Close Scope Z_scope.
+
+Example kill_justified_body_forces_the_real_counter :
+  forall i p next act2 act4 act1 act5 vs k res,
+    nth_error (e_pools (sm_exec n1)) i = Some p ->
+    act2 = filter (fun c => negb (memb (c_id c) (map su_cid
+              (filter (fun x => (su_pool x =? Z.of_nat (p_id p))%Z) (tl_susp nlg1))))) (p_active p)
+           ++ new_containers next (filter (fun x => (a_pool x =? Z.of_nat (p_id p))%Z) (tl_asgs nlg1)) ->
+    act4 = map (cstep Cn) act2 -> act1 = map (kill_when over_limit) act4 ->
+    map c_id vs = firstn k (victims_order Cn act1) ->
+    act5 = map (kill_if (map c_id vs)) act1 ->
+    res = map (result_of (p_id p)) (filter c_completed act5) ->
+    incl res (tl_results nlg1) ->
+    next = 1 /\ next = e_next (sm_exec n1) /\ map c_id act4 = [0; 1] /\ vs = [] /\ map r_cid res = [0; 1] /\
+    next <> 7.
+Proof. exact CounterForced.kill_justified_forces_counter. Qed.
+
+End NextForced.
+
 (* ====================================================================================================== *)
-(* D3. C15_gen_run_u_refuses_negative: the guard of the runner is not the counterpart of what              *)
+(* D3. C15_gen_run_u_refuses_negative (now C15_gen_run_u_domain, stated as a domain restriction; these       *)
+(*     witnesses are the documented limitation in Properties/C15.v): the guard is not the counterpart of what *)
 (*     numpy.random.Generator.choice refuses. WorkloadGenerator.__init__ divides by np.sum first             *)
 (*     (workload.py:89), and choice validates the QUOTIENTS, at the first class draw.                        *)
 (*     (a) a triple of non-positive numbers with a negative sum normalises to proper probabilities:           *)
@@ -251,11 +317,11 @@ Proof.
   vm_compute. reflexivity.
 Qed.
 
-(* ... and this refusal IS an instance of the Properties theorem (first disjunct), so the theorem's reading
-   "what numpy refuses" does not hold of its own hypothesis *)
+(* ... and this refusal IS an instance of the Properties theorem (first disjunct), so the theorem's OLD reading
+   "what numpy refuses" did not hold of its own hypothesis (the theorem now reads "outside the runner's domain") *)
 Example negative_sum_is_an_instance_of_the_theorem :
   run_gen_u (wire (-1) 4 (-1) 4 (-1) 2) = bad_input.
-Proof. unfold wire. apply GenRefuse.run_gen_u_refuses_negative. left. reflexivity. Qed.
+Proof. unfold wire. apply GenRefuse.run_gen_u_domain. left. reflexivity. Qed.
 
 (* (b) no tick is run (nticks = 0, empty stream): the implementation builds the generator and never calls choice;
    the runner answers the positive triple and refuses (-1/2, 1, 1/2) *)
@@ -313,3 +379,5 @@ Print Assumptions C15guard.negative_sum_is_an_instance_of_the_theorem.
 Print Assumptions C15guard.refused_although_choice_is_never_called.
 Print Assumptions C15guard.overflowing_sum_is_accepted.
 Print Assumptions C11CounterForced.C11_incl_forces_counter.
+Print Assumptions VsForced.kill_justified_body_forces_the_real_victims.
+Print Assumptions NextForced.kill_justified_body_forces_the_real_counter.
